@@ -210,6 +210,173 @@ def shrink(ops, still_fails):
     return ops
 
 
+
+# ---------------------------------------------------------------------------------------------
+# Lua level: nested runtime.callcontext / pcall / coroutine on the real runtime.  Independent
+# predicates on what the context objects report (status truthful, used <= kill, child <= parent's
+# remaining, soft <= hard, flags, charge to parent, stack balanced afterwards).
+
+LUA_PRELUDE = """
+local function rep(tag, c)
+  emit(tag, c.status, c.kill.cpu or 0, c.used.cpu or 0, c.kill.memory or 0, c.used.memory or 0, c.stop.cpu or 0, c.flags, c.due)
+end
+local function work(n) local s=0 for i=1,n do s=s+i end return s end
+local function guard(n) return setmetatable({}, {__close=function() emit('guard', work(n)) end}) end
+"""
+ENDINGS = {
+    "normal": "emit('i-end') return 7",
+    "error": "emit('i-before-error') error('E')",
+    "loop": "emit('i-loop') while true do end",
+}
+BOUNDARY = {
+    "direct": "%s",
+    "pcall": "emit('pc', pcall(function() %s end))",
+    "coro": "local co=coroutine.wrap(function() %s end) emit('co', pcall(co))",
+}
+
+
+def lua_case(rng):
+    KO = rng.choice([800, 2000, 5000, 20000])
+    KI = rng.choice([0, 0, 300, 1000, 3000, 50000])
+    MI = rng.choice([0, 0, 0, 20000])
+    SI = rng.choice([0, 0, 100, 100000])
+    FI = rng.choice(["", "", "iosafe", "memsafe"])
+    FO = rng.choice(["", "cpusafe", "iosafe"])
+    pre = rng.choice([0, 10, 100])
+    inner_work = rng.choice([0, 10, 60, 400])
+    post = rng.choice([0, 10, 100])
+    ending = rng.choice(list(ENDINGS))
+    g = rng.choice([0, 0, 20, 2000])          # work done by a pending __close handler of the inner body
+    bnd = rng.choice(list(BOUNDARY))
+    idef = []
+    kill = []
+    if KI:
+        kill.append("cpu=%d" % KI)
+    if MI:
+        kill.append("memory=%d" % MI)
+    if kill:
+        idef.append("kill={%s}" % ",".join(kill))
+    if SI:
+        idef.append("stop={cpu=%d}" % SI)
+    if FI:
+        idef.append("flags='%s'" % FI)
+    inner_body = ("%s emit('i-start') emit('w', work(%d)) %s" %
+                  (("local g<close> = guard(%d)" % g) if g else "", inner_work, ENDINGS[ending]))
+    inner_call = ("local inner, x = runtime.callcontext({%s}, function() %s end) rep('inner', inner) emit('inner-ret', x)" %
+                  (",".join(idef), BOUNDARY[bnd] % inner_body))
+    odef = ["kill={cpu=%d}" % KO]
+    if FO:
+        odef.append("flags='%s'" % FO)
+    src = (LUA_PRELUDE +
+           "rep('top-before', runtime.context())\n"
+           "local outer = runtime.callcontext({%s}, function() emit('o-start') emit('w', work(%d)) rep('outer-at-push', runtime.context()) %s "
+           "rep('outer-live', runtime.context()) emit('w', work(%d)) emit('o-end') end)\n"
+           "rep('outer', outer) rep('top-after', runtime.context())" % (",".join(odef), pre, inner_call, post))
+    meta = {"KO": KO, "KI": KI, "MI": MI, "SI": SI, "FI": FI, "FO": FO, "ending": ending, "guard": g, "boundary": bnd}
+    return src, meta
+
+
+def dec_val(v):
+    if v.startswith("s"):
+        return "" if v == "s-" else bytes.fromhex(v[1:]).decode("utf-8", "replace")
+    if v.startswith("i"):
+        return int(v[1:])
+    if v == "b1":
+        return True
+    if v == "b0":
+        return False
+    if v == "n":
+        return None
+    return v
+
+
+def lua_predicates(meta, line):
+    """Independent statement of C07 on what the Lua-visible context objects say."""
+    f = line.split(" ")
+    if f[1] in ("CRASH", "HANG", "gopanic"):
+        return ["process %s" % f[1]]
+    if f[1] not in ("ok",):
+        return ["top-level chunk ended with status %s (%s)" % (f[1], line[:200])]
+    evs = [[dec_val(v) for v in e.split(",")] for e in f[2][2:].split(";")] if f[2] != "T:-" else []
+    reps = {}
+    for e in evs:
+        if e[0] in ("top-before", "outer-at-push", "inner", "outer-live", "outer", "top-after"):
+            reps[e[0]] = dict(zip(["status", "kcpu", "ucpu", "kmem", "umem", "scpu", "flags", "due"], e[1:]))
+    tags = [e[0] for e in evs]
+    fails = []
+    for tag, r in reps.items():
+        if r["kcpu"] and r["ucpu"] > r["kcpu"]:
+            fails.append("%s: used cpu %d exceeds kill %d" % (tag, r["ucpu"], r["kcpu"]))
+        if r["kmem"] and r["umem"] > r["kmem"]:
+            fails.append("%s: used memory %d exceeds kill %d" % (tag, r["umem"], r["kmem"]))
+        if r["kcpu"] and not (0 < r["scpu"] <= r["kcpu"]):
+            fails.append("%s: soft cpu limit %d not within hard limit %d" % (tag, r["scpu"], r["kcpu"]))
+    if "outer" not in reps or "top-after" not in reps or "top-before" not in reps:
+        return fails + ["missing reports: %s" % sorted(reps)]
+    tb, ta, outer = reps["top-before"], reps["top-after"], reps["outer"]
+    if (ta["status"], ta["kcpu"], ta["kmem"], ta["flags"]) != (tb["status"], tb["kcpu"], tb["kmem"], tb["flags"]) or ta["status"] != "live":
+        fails.append("context stack not balanced: top-level context before %s, after %s" % (tb, ta))
+    if outer["kcpu"] != meta["KO"]:
+        fails.append("outer kill.cpu %s, requested %d" % (outer["kcpu"], meta["KO"]))
+    if "cpusafe" not in outer["flags"].split():
+        fails.append("outer context with a cpu limit lacks the cpusafe flag")
+    if outer["status"] == "done" and "o-end" not in tags:
+        fails.append("outer reports done but its body did not finish")
+    if outer["status"] != "done" and "o-end" in tags:
+        fails.append("outer body finished but status is %s" % outer["status"])
+    if "inner" in reps and "outer-at-push" in reps:
+        inner, op = reps["inner"], reps["outer-at-push"]
+        left = op["kcpu"] - op["ucpu"]
+        if not (0 < inner["kcpu"] <= left + 0):
+            # the parent used a little more between the report and the push, so kill <= left is the bound
+            fails.append("inner kill.cpu %d exceeds what the parent had left (%d)" % (inner["kcpu"], left))
+        if meta["KI"] and inner["kcpu"] > meta["KI"]:
+            fails.append("inner kill.cpu %d above requested %d" % (inner["kcpu"], meta["KI"]))
+        need = set(op["flags"].split()) | set(meta["FI"].split()) | ({"cpusafe"} if meta["KI"] else set()) | ({"memsafe"} if meta["MI"] else set())
+        if not need <= set(inner["flags"].split()):
+            fails.append("inner flags '%s' do not include %s" % (inner["flags"], sorted(need)))
+        want = {"normal": ("done", "killed"), "error": ("error", "killed"), "loop": ("killed",)}[meta["ending"]]
+        if meta["boundary"] != "direct":
+            # the body's ending is absorbed by the pcall / coroutine boundary inside the context
+            want = ("done", "killed", "error")
+        if inner["status"] not in want:
+            fails.append("inner status %s after a body ending by %s" % (inner["status"], meta["ending"]))
+        ret = [e for e in evs if e[0] == "inner-ret"]
+        if inner["status"] == "done" and meta["boundary"] == "direct" and (not ret or ret[0][1] != 7 or "i-end" not in tags):
+            fails.append("inner reports done but did not return its result")
+        if inner["status"] == "killed" and ret and ret[0][1] is not None:
+            fails.append("inner reports killed but returned a value")
+        if inner["status"] == "error" and "i-before-error" not in tags:
+            fails.append("inner reports error but the error site was not reached")
+        if inner["status"] == "killed" and meta["guard"] and "guard" in tags and meta["boundary"] == "direct":
+            fails.append("to-be-closed handler ran in a killed context")
+        if inner["due"] != (inner["scpu"] > 0 and inner["ucpu"] >= inner["scpu"]):
+            fails.append("inner due=%s but used %d, stop %d" % (inner["due"], inner["ucpu"], inner["scpu"]))
+        if "outer-live" in reps and reps["outer-live"]["ucpu"] < op["ucpu"] + inner["ucpu"]:
+            fails.append("parent not charged with the child's use: before %d, child %d, after %d" % (op["ucpu"], inner["ucpu"], reps["outer-live"]["ucpu"]))
+    return fails
+
+
+def lua_stage(ck, gvh, n):
+    cases = [lua_case(ck.rng) for _ in range(n)]
+    lines = ["L%d %s" % (i, src.encode().hex()) for i, (src, _) in enumerate(cases)]
+    outs = vlib.run_lines_resilient(gvh, ["lua"], lines, per_case_timeout=30)
+    nviol = 0
+    for (src, meta), o in zip(cases, outs):
+        ck.case("lua:" + src, True)
+        ck.count("lua:ending:" + meta["ending"])
+        ck.count("lua:boundary:" + meta["boundary"])
+        fails = lua_predicates(meta, o)
+        if fails:
+            nviol += 1
+            if nviol <= 3:
+                ck.violation("nested contexts at Lua level: " + fails[0],
+                             {"kind": "Go!=S", "engine": "lua", "program": src, "params": meta, "output": o[:1500], "failed_predicates": fails})
+    if cases:
+        ck.sample({"lua_program": cases[0][0][-500:], "params": cases[0][1], "output": outs[0][:300]})
+    return nviol
+
+
 def run(tier, seed):
     ck = vlib.Check("C07", tier, seed, level="proof")
     ok_obl = ck.obligations(PROP, clean=False)
@@ -297,6 +464,9 @@ def run(tier, seed):
     for i in (0, ncorpus + 5, ncorpus + nenum + 1, len(cases) - 1):
         if 0 <= i < len(impl):
             ck.sample({"history": lines[i].split(" ", 1)[1], "impl": impl[i].split(" ", 1)[1][:400]})
+    lua_fail = lua_stage(ck, ck.build_gvh()[0], 400 if tier == "quick" else 6000)
+    ck.cov["lua_level_failures"] = lua_fail
+    pred_fail += lua_fail
     if ndiff and not pred_fail:
         # Go != IM but no property predicate failed: search harder on the Go side alone
         ck.log("%d correspondence differences; searching for a property-level failure" % ndiff)
